@@ -3,6 +3,7 @@ package ledger
 import (
 	"crypto/sha256"
 	"encoding/json"
+	"errors"
 	"fmt"
 )
 
@@ -31,6 +32,14 @@ func (block *Block) UnmarshalJSON(data []byte) error {
 	err := json.Unmarshal(data, &dto)
 	if err != nil {
 		return err
+	}
+	if dto == nil {
+		return errors.New("block is null")
+	}
+	for _, transaction := range dto.Transactions {
+		if transaction == nil {
+			return errors.New("block transaction is null")
+		}
 	}
 	block.previousHash = dto.PreviousHash
 	block.addedRegisteredAddresses = dto.AddedRegisteredAddresses
